@@ -32,6 +32,8 @@ var (
 	verif    = flag.String("verif", "/verif", "verification directory")
 	replay   = flag.String("replay", "", "replay file to re-execute")
 	multiOK  = flag.Bool("multi", true, "multiReadCloser sub-leg was built")
+	schedBin = flag.String("schedbin", "", "race-enabled test binary of the instrumented cmd/pql (scheduled leg); empty = leg not run")
+	schedWhy = flag.String("schedwhy", "cmd/pql starts no goroutines: there is no schedule to explore", "why the scheduled leg is not run")
 	inproc   = flag.Bool("inproc", true, "the in-process harness (the template calling run) could be built")
 	noProbe  = flag.Bool("no-probe", false, "skip the invocation-independence probe (to exercise the fallback that repeats the exploration)")
 	selftest = flag.Bool("selftest-determinism", false, "run the determinism self-test instead of the check")
@@ -48,6 +50,24 @@ func fatal(format string, args ...any) {
 var cmdSeq int
 
 func simJob(cmd c16sim.Command, gomaxprocs int, timeout time.Duration) (*drv.Job, string) {
+	return simJobBin(curBin(), cmd, gomaxprocs, timeout)
+}
+
+// useSched: replay and minimisation of a violation found in the scheduled leg need that leg's binary.
+var useSched bool
+
+func curBin() string {
+	if useSched {
+		return *schedBin
+	}
+	return *simBin
+}
+
+var cmdMu sync.Mutex
+
+func simJobBin(bin string, cmd c16sim.Command, gomaxprocs int, timeout time.Duration) (*drv.Job, string) {
+	cmdMu.Lock()
+	defer cmdMu.Unlock()
 	cmdSeq++
 	cmdPath := filepath.Join(*work, fmt.Sprintf("cmd-%d.json", cmdSeq))
 	if cmd.Out == "" {
@@ -63,7 +83,7 @@ func simJob(cmd c16sim.Command, gomaxprocs int, timeout time.Duration) (*drv.Job
 	}
 	return &drv.Job{
 		Name:    cmdPath,
-		Argv:    []string{*simBin, "-test.run", "^TestZZSimC16$", "-test.timeout", "0"},
+		Argv:    []string{bin, "-test.run", "^TestZZSimC16$", "-test.timeout", "0"},
 		Env:     env,
 		Dir:     *work,
 		Timeout: timeout,
@@ -74,14 +94,14 @@ func procSeed(base uint64, i int) uint64 { return prng.Derive(base, "c16-process
 
 type agg struct {
 	procs, scripts, runs, strict, fault, sweepScripts, sweepRuns, multi, long, steps, bytes int
-	sinkEq, sinkGt, violationRuns                                                        int
-	faultKinds, probes, stmtKinds                                                        map[string]int
-	trans                                                                                map[string]bool
-	violations                                                                           []c16sim.ViolationRec
-	inconclusive                                                                         []string
-	samples                                                                              []any
-	digests                                                                              map[uint64]string
-	workerWallMs                                                                         int64
+	sinkEq, sinkGt, violationRuns                                                           int
+	faultKinds, probes, stmtKinds                                                           map[string]int
+	trans                                                                                   map[string]bool
+	violations                                                                              []c16sim.ViolationRec
+	inconclusive                                                                            []string
+	samples                                                                                 []any
+	digests                                                                                 map[uint64]string
+	workerWallMs                                                                            int64
 }
 
 func newAgg() *agg {
@@ -166,6 +186,9 @@ var isolate bool
 // process of its own.
 var suspectCarry bool
 
+// toolNondeterministic: the probe saw the same case give two outcomes in two processes of its own.
+var toolNondeterministic bool
+
 func quickCfg(seed uint64) c16sim.WorkerConfig {
 	if isolate {
 		// a process per execution costs milliseconds instead of microseconds: a quarter of the scripts
@@ -218,6 +241,10 @@ func explore(parallel int) bool {
 		if j.ExitCode != 0 || j.TimedOut || drv.ReadJSON(out, &pr) != nil {
 			fmt.Printf("%s\n%s\n", tail(j.Stdout), tail(j.Stderr))
 			fatal("the invocation-independence probe did not complete")
+		}
+		toolNondeterministic = pr.Nondeterministic
+		if pr.Nondeterministic {
+			fmt.Println("note: the tool is not deterministic: the same case, executed twice in processes of its own, gave two outcomes (goroutines of its own?)")
 		}
 		if pr.StateCarried {
 			isolate = true
@@ -311,6 +338,21 @@ func explore(parallel int) bool {
 	// must not make its output depend on their schedule).
 	races := runRaceLeg(base, parallel)
 
+	// Scheduled leg: if the tool starts goroutines, their interleaving is a seeded choice too.
+	sl := runSchedLeg(base, parallel)
+	if sl.ran {
+		cls := map[string]int{}
+		for _, v := range sl.violations {
+			cls[v.Verdict.Class]++
+		}
+		fmt.Printf("scheduled leg: cmd/pql starts goroutines; %d executions of run under seeded schedules of the instrumented tool; violations by class (first few per process): %v, race reports: %d\n", sl.runs, cls, len(sl.races))
+		races = append(races, sl.races...)
+		a.inconclusive = append(a.inconclusive, sl.incon...)
+	} else if *schedWhy != "" && !strings.HasPrefix(*schedWhy, "cmd/pql starts no goroutines") {
+		fmt.Println("note: scheduled leg not run:", *schedWhy)
+	}
+	schedLeg = sl
+
 	// Process-level leg on the real binary.
 	pl := runProcLevel(base, parallel)
 
@@ -322,6 +364,7 @@ func explore(parallel int) bool {
 	reported := 0
 	known := 0
 	all := append([]c16sim.ViolationRec{}, a.violations...)
+	all = append(all, sl.violations...)
 	sort.SliceStable(all, func(i, j int) bool { return len(all[i].Case.Input) < len(all[j].Case.Input) })
 	seenClass := map[string]bool{}
 	var lines []string
@@ -332,7 +375,12 @@ func explore(parallel int) bool {
 		}
 		seenClass[v.Verdict.Class] = true
 		rf := c16sim.ReplayFile{Tool: toolVersion, Property: "C16", Leg: "in-process", Class: v.Verdict.Class, BaseSeed: base, Violation: v}
+		useSched = v.Case.Sched != 0
+		if useSched {
+			rf.Leg = "in-process-sched"
+		}
 		final := finalizeReplay(rf)
+		useSched = false
 		key := caseKey(final.Violation.Case)
 		if f := drv.MatchFinding(findings, "C16", final.Class, key); f != nil {
 			fmt.Printf("KNOWN-FINDING: property=C16 class=%s key=%s %s\n", final.Class, key, f.Text)
@@ -474,6 +522,13 @@ func exploreBinaryOnly(parallel int, base uint64, start time.Time) bool {
 	return false
 }
 
+func schedLegNote() string {
+	if schedLeg == nil || !schedLeg.ran {
+		return "not run: " + *schedWhy
+	}
+	return fmt.Sprintf("cmd/pql instrumented and run() executed as a task of the seeded scheduler: %d executions, %d violations, %d race reports", schedLeg.runs, len(schedLeg.violations), len(schedLeg.races))
+}
+
 func clipS(s string) string {
 	if len(s) > 400 {
 		return s[:300] + "…" + s[len(s)-80:]
@@ -512,11 +567,14 @@ func finalizeReplay(rf c16sim.ReplayFile) c16sim.ReplayFile {
 	}
 	// fall back to the unminimised case
 	orig.ReplayVerified = replayOnce(orig)
+	for attempt := 0; toolNondeterministic && !orig.ReplayVerified && attempt < 4; attempt++ {
+		orig.ReplayVerified = replayOnce(orig)
+	}
 	if !orig.ReplayVerified {
-		if !isolate {
+		if !isolate && !toolNondeterministic {
 			suspectCarry = true
 		} else {
-			fmt.Println("note: an observed violation did not reproduce on replay (the tool is not deterministic); reporting it unminimised")
+			fmt.Println("note: an observed violation did not reproduce on replay (the tool is not deterministic); reporting it unminimised, replay_verified=false")
 		}
 	}
 	return orig
@@ -546,13 +604,21 @@ func doReplay(path string) int {
 	if err := drv.ReadJSON(path, &probe); err != nil {
 		fatal("%v", err)
 	}
-	if probe.Leg == "in-process-race" {
+	if probe.Leg == "in-process-race" || probe.Leg == "in-process-sched-race" {
 		var rv raceViolation
 		if err := drv.ReadJSON(path, &rv); err != nil {
 			fatal("%v", err)
 		}
+		bin := *raceBin
+		if probe.Leg == "in-process-sched-race" {
+			bin = *schedBin
+			if bin == "" {
+				fmt.Println("the tree under test has no goroutines in cmd/pql any more (no scheduled leg): not reproduced")
+				return drv.ExitHeld
+			}
+		}
 		for attempt := 0; attempt < 3; attempt++ {
-			if got := runRaceWorker(rv.Worker); got != nil {
+			if got, _ := runAltWorker(bin, probe.Leg, rv.Worker); got != nil {
 				fmt.Printf("replayed worker seed %d under the race detector: %s\nVIOLATION property=C16 replay=%s\n", rv.Worker.Seed, got.Summary, path)
 				return drv.ExitViolation
 			}
@@ -580,6 +646,13 @@ func doReplay(path string) int {
 	var rf c16sim.ReplayFile
 	if err := drv.ReadJSON(path, &rf); err != nil {
 		fatal("%v", err)
+	}
+	if rf.Leg == "in-process-sched" {
+		if *schedBin == "" {
+			fmt.Println("the tree under test has no goroutines in cmd/pql any more (no scheduled leg): not reproduced")
+			return drv.ExitHeld
+		}
+		useSched = true
 	}
 	j, out := simJob(c16sim.Command{Mode: "replay", In: path}, 1, 5*time.Minute)
 	drv.RunJob(j)
@@ -657,7 +730,7 @@ func writeEvidence(a *agg, pl *procLevelResult, base uint64, bases []uint64, wal
 	nontrivial := 0
 	for _, t := range trans {
 		// trivial: nothing pending, nothing completed, clean reader
-		if !(strings.HasPrefix(t, "none/") && strings.Contains(t, "--done=0/clean-->") ) {
+		if !(strings.HasPrefix(t, "none/") && strings.Contains(t, "--done=0/clean-->")) {
 			nontrivial++
 		}
 	}
@@ -692,46 +765,47 @@ func writeEvidence(a *agg, pl *procLevelResult, base uint64, bases []uint64, wal
 			"rule": "one evaluation = one execution of the real cmd/pql run() on a seeded script under a seeded simulated reader (or of the real binary, process-level leg). " +
 				"distinct_nontrivial = distinct abstract transitions (model state before a line: pending-text class/prelude size class/failure flag) x (statements completed by the line and their kinds / strongest reader behaviour inside the line: clean, cut, empty-read, file-boundary, error) x (state after), " +
 				"not counting the trivial transition 'nothing pending, nothing completed, clean read'",
-			"samples":                          samples,
-			"exhaustive":                       false,
-			"base_seeds":                       seedList,
-			"simulation_processes":             a.procs,
-			"scripts":                          a.scripts,
-			"runs_in_process":                  a.runs,
-			"runs_fault_free":                  a.strict,
-			"runs_fault_injecting":             a.fault,
-			"single_fault_sweep_scripts":       a.sweepScripts,
-			"single_fault_sweep_runs":          a.sweepRuns,
-			"multi_file_runs":                  a.multi,
-			"over_long_line_runs":              a.long,
-			"process_level_executions":         pl.execs,
-			"runs_under_race_detector":         raceRuns,
-			"logical_steps_read_write_calls":   a.steps,
-			"simulated_time":                   "none: the code has no clock, timer or deadline (DESIGN.md §1); logical steps are Read/Write calls",
-			"bytes_fed":                        a.bytes,
-			"runs_per_hour":                    perHour(a.runs),
-			"scripts_per_hour":                 perHour(a.scripts),
-			"process_seeds_per_hour":           perHour(a.procs),
-			"fault_kinds_fired":                a.faultKinds,
-			"process_level_kinds":              pl.kinds,
-			"probes":                           a.probes,
-			"statement_kinds_generated":        a.stmtKinds,
-			"distinct_abstract_transitions":    len(trans),
-			"reach_warnings":                   reach,
-			"runs_where_reports_equal_failures": a.sinkEq,
+			"samples":                            samples,
+			"exhaustive":                         false,
+			"base_seeds":                         seedList,
+			"simulation_processes":               a.procs,
+			"scripts":                            a.scripts,
+			"runs_in_process":                    a.runs,
+			"runs_fault_free":                    a.strict,
+			"runs_fault_injecting":               a.fault,
+			"single_fault_sweep_scripts":         a.sweepScripts,
+			"single_fault_sweep_runs":            a.sweepRuns,
+			"multi_file_runs":                    a.multi,
+			"over_long_line_runs":                a.long,
+			"process_level_executions":           pl.execs,
+			"runs_under_race_detector":           raceRuns,
+			"logical_steps_read_write_calls":     a.steps,
+			"simulated_time":                     "none: the code has no clock, timer or deadline (DESIGN.md §1); logical steps are Read/Write calls",
+			"bytes_fed":                          a.bytes,
+			"runs_per_hour":                      perHour(a.runs),
+			"scripts_per_hour":                   perHour(a.scripts),
+			"process_seeds_per_hour":             perHour(a.procs),
+			"fault_kinds_fired":                  a.faultKinds,
+			"process_level_kinds":                pl.kinds,
+			"probes":                             a.probes,
+			"statement_kinds_generated":          a.stmtKinds,
+			"distinct_abstract_transitions":      len(trans),
+			"reach_warnings":                     reach,
+			"runs_where_reports_equal_failures":  a.sinkEq,
 			"runs_where_reports_exceed_failures": a.sinkGt,
-			"violating_runs":                   a.violationRuns,
-			"known_findings_matched":           known,
-			"determinism_recheck":              "3 process seeds re-executed at GOMAXPROCS=1, event-log digests identical",
-			"multi_read_closer_leg_built":      *multiOK,
-			"in_process_harness_built":         *inproc,
-			"one_process_per_execution":        isolate,
-			"invocation_independence_probe":    map[bool]string{false: "the outcome of a case did not depend on what the same process had executed before it: many executions per simulation process", true: "cmd/pql keeps state between calls of run in one process: every execution ran in a process of its own"}[isolate],
-			"real_components":                  []string{"cmd/pql run()", "cmd/pql multiReadCloser", "bufio.Scanner", "pql", "pql/parser", "process-level leg: the whole binary, kernel file I/O"},
-			"stubbed_components":               []string{"io.Reader behind run (simulated, seeded)", "io.Writer (recording, never faulted)", "error sink (counting)"},
-			"parallel_processes":               parallel,
-			"go_version":                       runtime.Version(),
-			"tool":                             toolVersion,
+			"violating_runs":                     a.violationRuns,
+			"known_findings_matched":             known,
+			"determinism_recheck":                "3 process seeds re-executed at GOMAXPROCS=1, event-log digests identical",
+			"multi_read_closer_leg_built":        *multiOK,
+			"in_process_harness_built":           *inproc,
+			"scheduled_leg":                      schedLegNote(),
+			"one_process_per_execution":          isolate,
+			"invocation_independence_probe":      map[bool]string{false: "the outcome of a case did not depend on what the same process had executed before it: many executions per simulation process", true: "cmd/pql keeps state between calls of run in one process: every execution ran in a process of its own"}[isolate],
+			"real_components":                    []string{"cmd/pql run()", "cmd/pql multiReadCloser", "bufio.Scanner", "pql", "pql/parser", "process-level leg: the whole binary, kernel file I/O"},
+			"stubbed_components":                 []string{"io.Reader behind run (simulated, seeded)", "io.Writer (recording, never faulted)", "error sink (counting)"},
+			"parallel_processes":                 parallel,
+			"go_version":                         runtime.Version(),
+			"tool":                               toolVersion,
 		},
 		Assumptions: []string{
 			"reference model: statements cut at the semicolon tokens of one parser.Scan over the whole script, each compiled with pql.Compile after the accepted lets (DESIGN.md §5.4); the library itself is trusted here (its correctness is C01-C13)",
@@ -761,11 +835,14 @@ type raceViolation struct {
 var raceRuns int
 
 func runRaceWorker(cfg c16sim.WorkerConfig) *raceViolation {
+	r, _ := runAltWorker(*raceBin, "in-process-race", cfg)
+	return r
+}
+
+// runAltWorker runs one simulation process of a race-enabled binary (race leg, scheduled leg).
+func runAltWorker(bin, leg string, cfg c16sim.WorkerConfig) (*raceViolation, *c16sim.WorkerResult) {
 	cfg.MultiOK = *multiOK
-	save := *simBin
-	*simBin = *raceBin
-	j, out := simJob(c16sim.Command{Mode: "worker", Worker: cfg}, 0, 15*time.Minute)
-	*simBin = save
+	j, out := simJobBin(bin, c16sim.Command{Mode: "worker", Worker: cfg}, 0, 15*time.Minute)
 	j.Env = append(j.Env, "GORACE=halt_on_error=1 atexit_sleep_ms=0")
 	drv.RunJob(j)
 	defer os.Remove(out)
@@ -782,16 +859,79 @@ func runRaceWorker(cfg c16sim.WorkerConfig) *raceViolation {
 				break
 			}
 		}
-		return &raceViolation{Tool: toolVersion, Property: "C16", Leg: "in-process-race", Class: "data-race-in-tool", Worker: cfg, Summary: sum, Report: tail([]byte(se))}
+		return &raceViolation{Tool: toolVersion, Property: "C16", Leg: leg, Class: "data-race-in-tool", Worker: cfg, Summary: sum, Report: tail([]byte(se))}, nil
 	}
 	if j.TimedOut || j.ExitCode != 0 {
-		fatal("race-enabled simulation process failed: exit %d timed out %v\n%s", j.ExitCode, j.TimedOut, tail(j.Stderr))
+		fatal("race-enabled simulation process (%s) failed: exit %d timed out %v\n%s", leg, j.ExitCode, j.TimedOut, tail(j.Stderr))
 	}
 	var r c16sim.WorkerResult
 	if err := drv.ReadJSON(out, &r); err == nil {
+		raceMu.Lock()
 		raceRuns += r.Runs
+		raceMu.Unlock()
+		return nil, &r
 	}
-	return nil
+	return nil, nil
+}
+
+var raceMu sync.Mutex
+
+var schedLeg *schedLegResult
+
+// schedLeg is what the scheduled leg did.
+type schedLegResult struct {
+	ran        bool
+	why        string
+	runs       int
+	races      []raceViolation
+	violations []c16sim.ViolationRec
+	incon      []string
+}
+
+// runSchedLeg explores the schedules of the tool's own goroutines: cmd/pql is instrumented the way the
+// library is for C14 and run() executes as a task of that simulator, a seeded number of schedules per case.
+func runSchedLeg(base uint64, parallel int) *schedLegResult {
+	res := &schedLegResult{}
+	if *schedBin == "" {
+		res.why = *schedWhy
+		return res
+	}
+	res.ran = true
+	// Many small processes: goroutines a (broken) tool leaves behind when run returns stay parked in the
+	// simulator's task table for the life of the process, and that table is finite.
+	n, scripts, seeds := 160, 3, 3
+	if *tier == "thorough" {
+		n, scripts, seeds = 2400, 3, 4
+	}
+	var mu sync.Mutex
+	var wg sync.WaitGroup
+	sem := make(chan struct{}, parallel)
+	for i := 0; i < n; i++ {
+		wg.Add(1)
+		go func(i int) {
+			defer wg.Done()
+			sem <- struct{}{}
+			defer func() { <-sem }()
+			// few scripts per process: goroutines the tool leaves behind stay parked in the simulator
+			cfg := c16sim.WorkerConfig{Seed: prng.Derive(base, "c16-sched-process", uint64(i)), Scripts: scripts, Benign: 3, Faulty: 3, SchedSeeds: seeds}
+			rv, r := runAltWorker(*schedBin, "in-process-sched-race", cfg)
+			mu.Lock()
+			defer mu.Unlock()
+			if rv != nil {
+				rv.BaseSeed = base
+				res.races = append(res.races, *rv)
+			}
+			if r != nil {
+				res.runs += r.Runs
+				res.violations = append(res.violations, r.Violations...)
+				res.incon = append(res.incon, r.Inconclusive...)
+			}
+		}(i)
+	}
+	wg.Wait()
+	sort.Slice(res.races, func(i, j int) bool { return res.races[i].Worker.Seed < res.races[j].Worker.Seed })
+	sort.SliceStable(res.violations, func(i, j int) bool { return res.violations[i].ProcessSeed < res.violations[j].ProcessSeed })
+	return res
 }
 
 func runRaceLeg(base uint64, parallel int) []raceViolation {
